@@ -107,7 +107,23 @@ def _lay_stats(cases, impl):
     return dict(d)
 
 
+def _lay_props(modules, rule, oracle_pass, nontrivial=None, extra_trusted=None, assumptions=None):
+    d = {
+        'lean_modules': modules, 'expand': True, 'oracle_pass': oracle_pass,
+        'oracle_project': (lambda out: 'ok'),
+        'nontrivial': nontrivial or (lambda case, impl: impl.count('@') >= 2),
+        'rule': rule, 'stats': _lay_stats, 'describe': _lay_describe, 'shrink_candidates': _lay_shrink,
+        'trusted_base': ['Model/Layout.lean as a transcription of keyberon/src/layout.rs (checked differentially per tick incl. a digest of the private state through hook verif_digest)',
+                         'the harness serialiser of the parsed configuration (harness/src/ser.rs, lay.rs)'] + (extra_trusted or []),
+        'assumptions': assumptions or ['OS output is taken as the key-code list of the layout per tick (the kanata diffing layer is modelled separately)'],
+    }
+    return d
+
+
 PROPS = {
+    'C05': _lay_props(['KVerif.Props.C05'],
+        'lone tap-hold key: 7 variants x T in {2,5,200} x concurrent on/off x tap-repress window {0,3} x hold durations {0,1,T-2..T+2}; exhaustive physically consistent schedules (<= N events) over the tap-hold key and two plain keys with gaps {0,1,T-1,T,T+1}; random interleavings of two tap-hold keys with plain keys incl. bursts; non-trivial = output changed at least twice; distinct = distinct case line. Oracle on the implementation trace: exactly one tap/hold/timeout marker effect per press, decision kind and tick for a lone key (closed form), plain keys output in press order',
+        'C05o'),
     'C04': {
         'lean_modules': ['KVerif.Props.C04'],
         'expand': True,
